@@ -32,6 +32,13 @@ type Inject struct {
 	Iface string `json:"iface"`
 	After int    `json:"after"`
 	Hex   string `json:"hex"`
+	// DelayMs: the frame arrives this long after its trigger frame was seen (a late reply)
+	DelayMs int `json:"delay_ms,omitempty"`
+}
+
+type pending struct {
+	b     []byte
+	delay time.Duration
 }
 
 type Route struct {
@@ -173,16 +180,16 @@ func main() {
 			onCount()
 		}
 	}
-	byIface := map[string]map[int][][]byte{}
+	byIface := map[string]map[int][]pending{}
 	for _, in := range sc.Inject {
 		b, err := hex.DecodeString(in.Hex)
 		if err != nil {
 			continue
 		}
 		if byIface[in.Iface] == nil {
-			byIface[in.Iface] = map[int][][]byte{}
+			byIface[in.Iface] = map[int][]pending{}
 		}
-		byIface[in.Iface][in.After] = append(byIface[in.Iface][in.After], b)
+		byIface[in.Iface][in.After] = append(byIface[in.Iface][in.After], pending{b, time.Duration(in.DelayMs) * time.Millisecond})
 	}
 	var closers []func()
 	defer func() { _ = closers }()
@@ -262,10 +269,18 @@ func main() {
 							}()
 						}
 						for _, in := range byIface[name][seen] {
-							if syscall.Sendto(fd, in, 0, &syscall.SockaddrLinklayer{Protocol: htons(syscall.ETH_P_ALL), Ifindex: pi.Index}) == nil {
-								mu.Lock()
-								rep.Injected++
-								mu.Unlock()
+							send := func(b []byte) {
+								if syscall.Sendto(fd, b, 0, &syscall.SockaddrLinklayer{Protocol: htons(syscall.ETH_P_ALL), Ifindex: pi.Index}) == nil {
+									mu.Lock()
+									rep.Injected++
+									mu.Unlock()
+								}
+							}
+							if in.delay > 0 {
+								b := in.b
+								time.AfterFunc(in.delay, func() { send(b) })
+							} else {
+								send(in.b)
 							}
 						}
 					}
@@ -303,10 +318,18 @@ func main() {
 					if n > 0 && buf[0]>>4 == 4 {
 						seen++
 						for _, in := range byIface[name][seen] {
-							if _, err := f.Write(in); err == nil {
-								mu.Lock()
-								rep.Injected++
-								mu.Unlock()
+							send := func(b []byte) {
+								if _, err := f.Write(b); err == nil {
+									mu.Lock()
+									rep.Injected++
+									mu.Unlock()
+								}
+							}
+							if in.delay > 0 {
+								b := in.b
+								time.AfterFunc(in.delay, func() { send(b) })
+							} else {
+								send(in.b)
 							}
 						}
 					}
